@@ -120,7 +120,31 @@ Definition parse_builtin (e : env) (s : ost) (v : string) : option ost :=
 
 Definition is_some {A} (o : option A) : bool := match o with Some _ => true | None => false end.
 
-(* SetSchema(openAPIField, schema, reset): fver = openAPIField["version"] if present *)
+(* dropParsedSchema: forget everything parsed for the previously selected schema (keeps noUseBuiltInSchema) *)
+Definition drop_parsed (s : ost) : ost :=
+  mkOst (o_ver s) (o_custom s) false NotParsed (o_nobuiltin s) None None None.
+
+(* two values of kubernetesOpenAPIVersion select the same built-in schema ("" = the default version) *)
+Definition same_builtin_version (a b : string) : bool :=
+  String.eqb (if String.eqb a "" then default_version else a) (if String.eqb b "" then default_version else b).
+
+(* bytes.Equal on custom schemas: structural equality of the abstracted documents (the generators give distinct
+   bytes to distinct documents and vice versa) *)
+Fixpoint leqb {A} (eq : A -> A -> bool) (a b : list A) : bool :=
+  match a, b with
+  | [], [] => true
+  | x :: a', y :: b' => eq x y && leqb eq a' b'
+  | _, _ => false
+  end.
+Definition sdef_eqb (a b : sdef) : bool :=
+  String.eqb (d_name a) (d_name b) && leqb tm_eqb (d_tms a) (d_tms b) && String.eqb (d_mark a) (d_mark b) && Bool.eqb (d_mk a) (d_mk b).
+Definition path_eqb (a b : tm * bool) : bool := tm_eqb (fst a) (fst b) && Bool.eqb (snd a) (snd b).
+Definition same_schema (a b : schema) : bool :=
+  N.eqb (s_id a) (s_id b) && Bool.eqb (s_valid a) (s_valid b) && leqb sdef_eqb (s_defs a) (s_defs b) && leqb path_eqb (s_paths a) (s_paths b).
+
+(* SetSchema(openAPIField, schema, reset): fver = openAPIField["version"] if present.
+   (after the repairs 66a399d / 5e76c27: a selection change away from / between custom schemas drops what was
+   parsed; selecting the built-in version already in use keeps it) *)
 Definition set_schema (s : ost) (fver : option string) (sch : option schema) (reset : bool) : ost * oclass :=
   let is_set := negb (String.eqb (o_ver s) "") || is_some (o_custom s) in
   if is_set && negb reset then (s, COk)
@@ -128,14 +152,27 @@ Definition set_schema (s : ost) (fver : option string) (sch : option schema) (re
        | Some c =>
            match fver with
            | Some _ => (s, CErr)
-           | None => (with_init (with_ver (with_custom s (Some c)) "custom") false, COk)
+           | None =>
+               let s0 := match o_custom s with
+                         | Some c0 => if same_schema c0 c then s else drop_parsed s
+                         | None => s
+                         end in
+               (with_init (with_ver (with_custom s0 (Some c)) "custom") false, COk)
            end
        | None =>
            let v := match fver with Some v => v | None => "" end in
+           let prev := o_ver s in
            let s1 := with_ver s v in
-           if String.eqb v "" then (s1, COk)
+           if String.eqb v "" then
+             (match o_custom s1 with
+              | Some _ => drop_parsed (with_custom s1 None)
+              | None => s1
+              end, COk)
            else if negb (str_in v gen_builtin_versions) then (s1, CErr)
-           else (with_init (with_custom s1 None) false, COk)
+           else match o_custom s1 with
+                | Some _ => (drop_parsed (with_custom s1 None), COk)
+                | None => if same_builtin_version prev v then (s1, COk) else (with_init s1 false, COk)
+                end
        end.
 
 Definition is_init_needed (s : ost) : ost * bool :=
@@ -163,7 +200,14 @@ Definition init_schema (e : env) (s : ost) : ost * oclass :=
       | None => (s2, CPanic)
       end in
     match o_custom s1 with
-    | Some c => if s_valid c then finish (parse_into s1 c) else (s1, CPanic)
+    | Some c =>
+        (* (after the repair 8b04412) the default built-in schema is always loaded underneath a custom one *)
+        match parse_builtin e s1 default_version with
+        | Some s2 =>
+            let s3 := with_dflt s2 Parsed in
+            if s_valid c then finish (parse_into s3 c) else (s3, CPanic)
+        | None => (s1, CPanic)
+        end
     | None =>
         if is_default_ver (o_ver s1) then
           match parse_builtin e s1 default_version with
